@@ -76,7 +76,16 @@ func VerifSplit() {
 	}
 	hasDup := false
 	for i, d := range docs {
-		a := rt.Choose(nf)
+		a := 0
+		if rt.Param("SHAPE") == 1 {
+			// one fraction spans the others: it holds the newest and the oldest document (a stray
+			// late document in an old fraction), the documents in between sit one per further fraction
+			if i > 0 && i < n-1 {
+				a = 1 + (i-1)%(nf-1)
+			}
+		} else {
+			a = rt.Choose(nf)
+		}
 		fr[a].ids = append(fr[a].ids, d)
 		if dup == 1 && i == 0 && nf > 1 && rt.Choose(2) == 1 {
 			b := (a + 1) % nf
